@@ -28,10 +28,10 @@ Cfg_3full == { FutCfg(<<SV, <<a>>, <<b>>, <<c>> >>) : a \in Others, b \in Others
 Cfg_seq == { FutCfg(<<SV, <<a, b>>, <<c>> >>) : a \in {O("of", 0), O("wf", 1), O("rd", 0)}, b \in Few, c \in {O("of", 0), O("get", 0)} }
        \cup { FutCfg(<< <<O("of", 0), O("sv", 7), O("of", 0)>>, <<a>> >>) : a \in Few }
        \cup { FutCfg(<< <<a>>, <<O("of", 0)>> >>) : a \in {O("wf", 0), O("wf", 1), O("rd", 0)} }
-       \cup { FutCfg(<< <<O("sl", 2), O("sv", 7)>>, <<a>>, <<b>> >>) : a \in {O("wf", 1), O("wf", 3)}, b \in {O("wf", 1), O("get", 0)} }
+       \cup { FutCfg(<< <<O("sl", 2), O("sv", 7)>>, <<a, b>> >>) : a \in {O("wf", 1), O("wf", 3)}, b \in {O("wf", 1), O("get", 0)} }
 \* latch: count c, count_down from one or two threads, one or two observers
 LObs == {O("get", 0), O("wf", 1), O("of", 0), O("rd", 0)}
-Cfg_latch == { LatchCfg(2, << <<O("cd", 1)>>, <<O("cd", 1)>>, <<a>>, <<b>> >>) : a \in LObs, b \in {O("of", 0), O("rd", 0)} }
+Cfg_latch == { LatchCfg(2, << <<O("cd", 1)>>, <<O("cd", 1)>>, <<a>>, <<O("of", 0)>> >>) : a \in {O("get", 0), O("rd", 0)} }
          \cup { LatchCfg(2, << <<O("cd", 1), O("cd", 1)>>, <<a>> >>) : a \in LObs }
          \cup { LatchCfg(3, << <<O("cd", 2)>>, <<O("cd", 1)>>, <<a>> >>) : a \in LObs }
          \cup { LatchCfg(2, << <<O("cd", 1)>>, <<a>> >>) : a \in LObs \ {O("get", 0)} }
@@ -39,8 +39,9 @@ Cfg_latch == { LatchCfg(2, << <<O("cd", 1)>>, <<O("cd", 1)>>, <<a>>, <<b>> >>) :
          \cup { LatchCfg(1, << <<O("cd", 1)>>, <<a>> >>) : a \in LObs }
 
 \* ---- quick families (threads are symmetric: unordered pairs)
-Q5 == <<O("get", 0), O("wf", 1), O("of", 0), O("th", 0), O("rd", 0)>>
-Cfg_q2 == { FutCfg(<<SV, <<Q5[i]>>, <<Q5[j]>> >>) : <<i, j>> \in {p \in (1..5) \X (1..5) : p[1] <= p[2]} }
+Q4 == <<O("get", 0), O("wf", 1), O("of", 0), O("rd", 0)>>
+Cfg_q2 == { FutCfg(<<SV, <<Q4[i]>>, <<Q4[j]>> >>) : <<i, j>> \in {p \in (1..4) \X (1..4) : p[1] <= p[2]} }
+       \cup { FutCfg(<<SV, <<O("th", 0)>>, <<a>> >>) : a \in {O("of", 0), O("get", 0)} }
        \cup { FutCfg(<<SV, <<O("wf", n)>>, <<O("rd", 0)>> >>) : n \in {-1, 0, HUGE} }
 Cfg_q3 == { FutCfg(<<SV, <<O("of", 0)>>, <<O("th", 0)>>, <<O("rd", 0)>> >>) }
 Cfg_qseq == { FutCfg(<< <<O("of", 0), O("sv", 7), O("of", 0)>>, <<O("get", 0)>> >>),
@@ -53,7 +54,7 @@ Cfg_qlatch == { LatchCfg(2, << <<O("cd", 1)>>, <<O("cd", 1)>>, <<a>> >>) : a \in
           \cup { LatchCfg(3, << <<O("cd", 2)>>, <<O("cd", 1)>>, <<O("rd", 0), O("of", 0)>> >>) }
 \* spurious failure of the weak compare-exchange
 Cfg_spur == { FutCfgS(<<SV, <<O("of", 0)>>, <<a>> >>) : a \in {O("of", 0), O("get", 0), O("rd", 0)} }
-Cfg_sc == Cfg_q2 \cup Cfg_q3 \cup Cfg_qseq \cup Cfg_qlatch \cup Cfg_spur
+Cfg_sc == Cfg_q2 \cup Cfg_qseq \cup Cfg_qlatch \cup Cfg_spur
 \* KNOWN FINDING (findings/C08_waiter_counter_overflow.md): the waiter counter shares the futex word with READY_MASK and
 \* is incremented by every slow-path wait, also those that time out: 2^31 - fx0 more polls carry into the READY bit
 Cfg_overflow == { [mode |-> "fut", count |-> 0, spur |-> FALSE, fx0 |-> READY - 2, prog |-> << <<O("wf", 0), O("wf", 0), O("get", 0)>> >>],
@@ -62,16 +63,18 @@ Cfg_overflow == { [mode |-> "fut", count |-> 0, spur |-> FALSE, fx0 |-> READY - 
 Cfg_live == { FutCfg(<<SV, <<O("get", 0)>>, <<O("wf", 1)>> >>), FutCfg(<<SV, <<O("of", 0)>>, <<O("get", 0)>> >>),
               FutCfg(<<SV, <<O("get", 0)>>, <<O("get", 0)>> >>), LatchCfg(2, << <<O("cd", 1)>>, <<O("cd", 1)>>, <<O("get", 0)>> >>) }
 \* ---- thorough
-Cfg_full == Cfg_2 \cup Cfg_3 \cup Cfg_seq \cup Cfg_latch
-         \cup { FutCfgS(<<SV, <<O("of", 0)>>, <<O("of", 0)>>, <<a>> >>) : a \in {O("of", 0), O("get", 0)} }
+Cfg_full == Cfg_2 \cup Cfg_q3 \cup Cfg_seq \cup Cfg_latch
+\* 4 threads (multisets over the reduced alphabet) + spurious weak-CAS failures with three registrations
+Cfg_4 == { c \in Cfg_3 : \E t \in 2..4 : c.prog[t][1].op = "of" } \cup { FutCfgS(<<SV, <<O("of", 0)>>, <<O("of", 0)>>, <<a>> >>) : a \in {O("of", 0), O("get", 0)} }
 \* weak memory family (3 threads)
 WmOthers == {O("get", 0), O("wf", 1), O("of", 0), O("rd", 0)}
-W4 == <<O("get", 0), O("wf", 1), O("of", 0), O("rd", 0)>>
-Cfg_wm == { FutCfg(<<SV, <<W4[i]>>, <<W4[j]>> >>) : <<i, j>> \in {p \in (1..4) \X (1..4) : p[1] <= p[2]} }
+W3 == <<O("get", 0), O("of", 0), O("rd", 0)>>
+Cfg_wm == { FutCfg(<<SV, <<W3[i]>>, <<W3[j]>> >>) : <<i, j>> \in {p \in (1..3) \X (1..3) : p[1] <= p[2]} }
+       \cup { FutCfg(<<SV, <<O("wf", 1)>>, <<a>> >>) : a \in {O("of", 0), O("get", 0)} }
        \cup { FutCfg(<<SV, <<O("of", 0), O("get", 0)>> >>), FutCfg(<<SV, <<O("get", 0), O("of", 0)>> >>), FutCfg(<<SV, <<O("rd", 0), O("of", 0)>> >>) }
        \cup { LatchCfg(2, << <<O("cd", 1)>>, <<O("cd", 1)>>, <<a>> >>) : a \in {O("get", 0), O("of", 0)} }
-Cfg_wm3 == { FutCfg(<<SV, <<a>>, <<b>>, <<c>> >>) : a \in WmOthers, b \in WmOthers, c \in WmOthers }
-        \cup { LatchCfg(2, << <<O("cd", 1)>>, <<O("cd", 1)>>, <<a>>, <<b>> >>) : a \in WmOthers, b \in WmOthers }
+Cfg_wm3 == { FutCfg(<<SV, <<O("get", 0)>>, <<O("of", 0)>>, <<O("rd", 0)>> >>), FutCfg(<<SV, <<O("of", 0)>>, <<O("of", 0)>>, <<O("get", 0)>> >>),
+             FutCfg(<<SV, <<O("wf", 1)>>, <<O("of", 0)>>, <<O("get", 0)>> >>), LatchCfg(2, << <<O("cd", 1)>>, <<O("cd", 1)>>, <<O("get", 0)>>, <<O("of", 0)>> >>) }
 
 Next == \/ \E t \in Thr : Step(t, MOf) \/ FireMC(t)
         \/ (AllDone /\ UNCHANGED vars)
